@@ -244,9 +244,192 @@ def gen_reduce_faults(rng, n, ncomb, how_many, shape):
     return out
 
 
+
+# ----------------------------------------------------------------------------- reduce_ with an explicit zero (kind reducez)
+
+def rz_needed(live, cap, zero=True):
+    """heap positions that need a combiner (`rebuild_structure` phase 1): both child aggregates non-empty, or - with a
+    zero - the root of a singleton"""
+    out = set()
+    for p in range(max(0, cap - 1)):
+        d = (p + 1).bit_length() - 1
+        span = cap >> d
+        first = (p + 1 - (1 << d)) * span
+        if first + span // 2 < live or (zero and p == 0 and live == 1):
+            out.add(p)
+    return out
+
+
+def rz_sim(cycles, zero=True):
+    """what the tree does in each cycle of a key history (generator / histogram only - the monitor never uses it):
+    -> list of None (node not evaluated) | dict(live0, live1, cap, grew, created=[positions, start order], retired=[...])"""
+    present, cap, need, published, out = set(), 0, set(), False, []
+    for idx, ops in enumerate(cycles):
+        adds = {int(o[1:]) for o in ops if o[0] == "+"}
+        dels = {int(o[1:]) for o in ops if o[0] == "-"} & present
+        if not adds and not dels and not (zero and idx == 0):
+            out.append(None)
+            continue
+        new = (present - dels) | adds
+        rec = {"live0": len(present), "live1": len(new), "cap": cap, "grew": False, "created": [], "retired": []}
+        if new != present or not published:
+            live = len(new)
+            cap1 = max(cap, 2 if zero else 0, (1 << (live - 1).bit_length()) if live else 0)
+            need1 = rz_needed(live, cap1, zero)
+            if cap1 != cap:
+                rec.update(grew=True, created=sorted(need1), retired=sorted(need))
+            else:
+                rec.update(created=sorted(need1 - need), retired=sorted(need - need1))
+            cap, need, published = cap1, need1, True
+            rec["cap"] = cap1
+        present = new
+        out.append(rec)
+    return out
+
+
+def reducez_history(rng):
+    """key histories for reduce_ with a zero: reach >= 3 live values (capacity >= 4, sometimes 8), then walk the live count
+    through 0 .. 3 with the 1 -> 2 and 2 -> 1 steps (one combiner created AND one retired by the same rebuild) as the most
+    frequent ones; value ticks, idle cycles, an empty first cycle (only the zero ticks); some small histories that never
+    leave capacity 2 (controls)"""
+    keys = list(range(1, 10))
+    rng.shuffle(keys)
+    present, cycles = [], []
+
+    def add(k):
+        absent = [x for x in keys if x not in present]
+        got = absent[:k]
+        present.extend(got)
+        return ["+%d" % x for x in got]
+
+    def rem(k):
+        got = rng.sample(present, min(k, len(present)))
+        for x in got:
+            present.remove(x)
+        return ["-%d" % x for x in got]
+    small = rng.random() < 0.12
+    if rng.random() < 0.15:
+        cycles.append([])                                         # the zero ticks, the collection is not valid yet
+    if not small:
+        first = rng.choice([3, 3, 3, 4, 5])
+        if rng.random() < 0.6:
+            cycles.append(add(first))
+        else:                                                     # grow in steps: 1 or 2 first (capacity 2), then across 4
+            k = rng.choice([1, 2])
+            cycles.append(add(k))
+            if rng.random() < 0.4:
+                cycles.append(["+%d" % rng.choice(present)])
+            cycles.append(add(first - k))
+        # come down to 1 or 2
+        target = rng.choice([1, 2])
+        if rng.random() < 0.7:
+            cycles.append(rem(len(present) - target))
+        else:
+            while len(present) > target:
+                cycles.append(rem(1))
+    else:
+        cycles.append(add(rng.choice([1, 2])))
+    for _ in range(rng.randint(1, 5)):
+        r = rng.random()
+        n = len(present)
+        if r < 0.08:
+            cycles.append([])
+        elif r < 0.22 and present:
+            cycles.append(["+%d" % x for x in rng.sample(present, min(n, rng.randint(1, 2)))])      # value ticks
+        elif n == 1:
+            cycles.append(add(1) if r < 0.80 or small else rem(1) if r < 0.88 else add(2))
+        elif n == 2:
+            cycles.append(rem(1) if r < 0.72 else add(1) if (r < 0.85 and not small) else rem(2))
+        elif n == 0:
+            cycles.append(add(rng.choice([1, 1, 2])))
+        else:
+            cycles.append(rem(n - rng.choice([1, 2])) if r < 0.8 else add(1))
+        if rng.random() < 0.15 and present and cycles[-1] and cycles[-1][0][0] == "-":
+            # a removal together with the addition of another key (the live count stays, the leaves move)
+            cycles[-1] = cycles[-1] + add(1)
+    return cycles
+
+
+def reducez_case(rng, i):
+    n = rng.choice([1, 1, 2, 2, 3])
+    cleanup = rng.random() < 0.7
+    cycles = reducez_history(rng)
+    sim = rz_sim(cycles)
+    # combiner ordinals in start order, per cycle (valid as long as no earlier start failed)
+    ords, nxt = [], 0
+    for rec in sim:
+        k = len(rec["created"]) if rec else 0
+        ords.append(list(range(nxt + 1, nxt + k + 1)))
+        nxt += k
+    mixed = [c for c, rec in enumerate(sim) if rec and rec["created"] and rec["retired"] and not rec["grew"]]
+    faults = []
+    r = rng.random()
+    if mixed and r < 0.45:
+        # the combiner created by a rebuild that also sets one aside fails to start (any of its probes)
+        c = rng.choice(mixed)
+        o = rng.choice(ords[c])
+        faults.append("fs %d" % ((o - 1) * n + rng.randint(1, n)))
+        if rng.random() < 0.3:
+            faults.append("fx %d %d" % (rng.randint(1, max(1, o)), rng.randrange(n)))     # + a stop fault in the clean-up
+    elif mixed and r < 0.62:
+        # evaluate fault in / right after such a rebuild
+        c = rng.choice(mixed)
+        o = rng.choice(ords[c])
+        faults.append("fe %d %d %d" % (o, rng.randrange(n), rng.choice([1, 1, 2])))
+        if rng.random() < 0.4:
+            faults.append("fx %d %d" % (rng.randint(1, o), rng.randrange(n)))
+    elif mixed and r < 0.76:
+        # stop fault of the combiner the rebuild retires (swallowed by the retire path) or of the one it creates (parent stop)
+        c = rng.choice(mixed)
+        o = rng.choice(ords[c])
+        faults.append("fx %d %d" % (rng.choice([o, max(1, o - 1), max(1, o - 2)]), rng.randrange(n)))
+    elif r < 0.92:
+        faults = gen_reduce_faults(rng, n, max(2, nxt), rng.choice([1, 1, 2, 3]), rng.choice(["stop-only", "eval-stop", "any", "any"]))
+    return mk(i, "reducez", n, cleanup, faults, cycles)
+
+
+def reducez_directed(add, n, cl):
+    """the live-count steps 1 -> 2 and 2 -> 1 in a tree of capacity >= 4 (one combiner created, another one set aside by the
+    same rebuild), with a fault at every point of that rebuild; controls around them"""
+    up = [["+1", "+2", "+3"], ["-2", "-3"], ["+4"], ["+1"]]          # 3 -> 1 -> 2: ordinals 1 (root), 2 (pos 1), then 3 (pos 1)
+    down = [["+1", "+2", "+3"], ["-3"], ["-2"], ["+1"]]              # 3 -> 2 -> 1: ordinals 1, 2, then 3 (singleton root)
+    updown = [["+1", "+2", "+3"], ["-2", "-3"], ["+4"], ["-4"], ["+5"], ["-1"]]
+    for h in (up, down):
+        add("reducez", n, cl, [], h)                                                 # control: no fault
+        for k in range(1, n + 1):
+            add("reducez", n, cl, ["fs %d" % (2 * n + k)], h)                        # the created combiner fails to start (probe k)
+        add("reducez", n, cl, ["fs %d" % (2 * n + 1), "fx 1 0"], h)                  # ... + stop faults in what is cleaned up afterwards
+        add("reducez", n, cl, ["fs %d" % (2 * n + 1), "fx 2 0"], h)
+        if n >= 2:
+            add("reducez", n, cl, ["fs %d" % (2 * n + 2), "fx 3 0"], h)              # ... + stop fault in the child's own rollback
+        add("reducez", n, cl, ["fe 3 %d 1" % (n - 1)], h)                            # evaluate fault of the created combiner, first evaluation
+        add("reducez", n, cl, ["fe 3 0 2"], h)                                       # ... at the value tick after the rebuild
+        add("reducez", n, cl, ["fe 3 0 1", "fx 3 0"], h)                             # evaluate fault followed by stop fault
+        for o in (1, 2, 3):
+            add("reducez", n, cl, ["fx %d %d" % (o, n - 1)], h)                      # stop fault: retired (swallowed) / live at the end
+    add("reducez", n, cl, [], updown)
+    for o in (3, 4, 5):
+        add("reducez", n, cl, ["fs %d" % ((o - 1) * n + 1)], updown)                 # later 1 <-> 2 steps
+    add("reducez", n, cl, ["fs %d" % (4 * n + 1), "fx 4 0"], updown)
+    # capacity 8, then 2 -> 1 -> 2
+    add("reducez", n, cl, ["fs %d" % (4 * n + 1)], [["+1", "+2", "+3", "+4", "+5"], ["-3", "-4", "-5"], ["-2"], ["+6"]])
+    add("reducez", n, cl, ["fs %d" % (5 * n + 1)], [["+1", "+2", "+3", "+4", "+5"], ["-3", "-4", "-5"], ["-2"], ["+6"]])
+    # controls: capacity 2 only; growth across a capacity boundary; same-capacity growth 3 -> 4; the zero-only first cycle
+    add("reducez", n, cl, ["fs 1"], [["+1"], ["+2"], ["-2"], ["+3"]])
+    add("reducez", n, cl, ["fx 1 0"], [["+1"], ["+2"], ["-2"], ["-1"], ["+3"]])
+    add("reducez", n, cl, ["fs %d" % (2 * n + 1)], [["+1", "+2"], ["+3"], ["+4"], ["+1"]])
+    add("reducez", n, cl, ["fs %d" % (3 * n + 1)], [["+1", "+2"], ["+3"], ["+4"], ["+1"]])
+    add("reducez", n, cl, ["fs %d" % (n + 1)], [[], ["+1"], ["+2", "+3"], ["-1", "-2"], ["+4"]])
+    add("reducez", n, cl, [], [[], [], ["+1", "+2", "+3"], ["-1", "-2", "-3"], ["+4"], ["+5"], ["-4"]])
+    # a removal together with an addition (the live count stays at 1 / 2, the leaves move)
+    add("reducez", n, cl, ["fx 2 0"], [["+1", "+2", "+3"], ["-3", "-2", "+4"], ["-1"], ["+5"]])
+
+
 def gen_case(rng, i):
     r = rng.random()
-    kind = "map" if r < 0.48 else ("switch" if r < 0.56 else "switchb" if r < 0.68 else "switchl" if r < 0.75 else "reduce")
+    if r >= 0.80:
+        return reducez_case(rng, i)
+    kind = "map" if r < 0.40 else ("switch" if r < 0.47 else "switchb" if r < 0.56 else "switchl" if r < 0.62 else "reduce")
     n = rng.choice([1, 1, 2, 2, 3])
     cleanup = rng.random() < 0.75
     nf = rng.choice([0, 1, 1, 1, 2, 2, 3])
@@ -340,6 +523,8 @@ def directed(base):
                 add("reduce", n, cl, ["fs %d" % k], [["+1", "+2", "+3"], ["+4", "+5"]])
             add("reduce", n, cl, ["fs %d" % (n + 1), "fx 1 0"], [["+1", "+2", "+3"]])
             add("reduce", n, cl, [], [["+1", "+2", "+3"], ["+2"], ["+4", "+5"], ["-1"], ["-2", "-3"], ["+9"]])
+            # reduce_ with an explicit zero: one rebuild that creates one combiner and sets another one aside
+            reducez_directed(add, n, cl)
     return out
 
 
@@ -623,6 +808,33 @@ def features(stream, case, out):
                 if any(ph == "stop" and t.startswith("px!") for (ph, t, _) in p["seq"]):
                     f.append("dyn:reduce-stop-fault-after-growth")
                 break
+    if p["kind"] == "reducez":
+        cycles = [l.split()[1:] for l in case.lines if l == "c" or l.startswith("c ")]
+        sim = rz_sim(cycles)
+        caps = [rec["cap"] for rec in sim if rec]
+        f.append("dyn:rz-capacity=%d" % (max(caps) if caps else 0))
+        if cycles and not cycles[0]:
+            f.append("dyn:rz-zero-only-first-cycle")
+        for k, rec in enumerate(sim):
+            if not rec or k in p["dead"]:
+                continue
+            cyc = [t for (ph, t, _) in p["seq"] if ph == k]
+            if rec["created"] and rec["retired"] and not rec["grew"]:
+                step = "%d->%d" % (rec["live0"], rec["live1"])
+                f.append("dyn:rz-create-and-retire-in-one-rebuild")
+                f.append("dyn:rz-create-and-retire-step=%s" % (step if step in ("1->2", "2->1") else "other"))
+                if any(t.startswith("ps!") for t in cyc):
+                    f.append("dyn:rz-created-start-fault-with-set-aside-combiner(cleanup=%d)" % (1 if p["cleanup"] else 0))
+                    if sum(1 for t in p["seq"] if t[1].startswith("px!")):
+                        f.append("dyn:rz-created-start-fault+stop-fault")
+                if any(t.startswith("pe!") for t in cyc):
+                    f.append("dyn:rz-evaluate-fault-in-create-and-retire-cycle")
+                if any(t.startswith("px!") for t in cyc):
+                    f.append("dyn:rz-set-aside-combiner-stop-fault-swallowed")
+            elif rec["grew"] and rec["retired"] and any(t.startswith("ps!") for t in cyc):
+                f.append("dyn:rz-growth-start-fault-with-old-generation")
+            elif rec["created"] and not rec["retired"] and any(t.startswith("ps!") for t in cyc):
+                f.append("dyn:rz-created-start-fault-nothing-set-aside")
     if any(t.startswith("G!") for t in toks):
         f.append("dyn:child-start-failed")
         # started siblings alive when a child start failed
